@@ -29,9 +29,9 @@ INFO = {
     "trusted": [],
 }
 
-MASKS = {31: [0x38, 0x1e, 0x2b, 0x07], 35: [0x38, 0x2b], 32: [0x11, 0x3c, 0x1b], 34: [0x11, 0x12, 0x3c, 0x2e], 33: [0x1c, 0x0b], 21: [0x1c, 0x19, 0x0b], 22: [0x1c, 0x16], 23: [0x0e, 0x0b]}
+MASKS = {36: [0x38, 0x2b], 24: [0x1f8, 0x0bd], 25: [0x1f8, 0x16b], 31: [0x38, 0x1e, 0x2b, 0x07], 35: [0x38, 0x2b], 32: [0x11, 0x3c, 0x1b], 34: [0x11, 0x12, 0x3c, 0x2e], 33: [0x1c, 0x0b], 21: [0x1c, 0x19, 0x0b], 22: [0x1c, 0x16], 23: [0x0e, 0x0b]}
 # (A, B): other codec; same codec other parameters; same (k, n-k) other field; same LDPC (k, n-k, N1) other seed / other symbol length; identical parameters
-PAIRS_Q = [(31, 21), (21, 31), (22, 21), (21, 22), (34, 32), (31, 35), (32, 33)]
+PAIRS_Q = [(31, 21), (21, 31), (22, 21), (21, 22), (34, 32), (31, 35), (32, 33), (36, 31), (25, 24)]
 PAIRS_T = PAIRS_Q + [(31, 31), (21, 21), (32, 34), (35, 31), (23, 21), (21, 23), (33, 32), (31, 32), (22, 31)]
 
 
@@ -42,7 +42,7 @@ def jobs(tier, seed):
         for m in ms:
             for lead in ((1,) if tier == "quick" and m != ms[0] else (1, 0)):
                 js.append(Job("independent.A%d.B%d.mask%x.lead%d" % (a, b, m, lead), "session_independence", "c12_independence.c", FUNCS, repo_sources=SRCS,
-                              defines={"OFV_A": a, "OFV_B": b, "OFV_MASK": m, "OFV_LEAD": lead, "OPENFEC_VERIF_SPARSE_BLOCK": 64}, unwind=110, object_bits=12, timeout=400, mem_gb=4,
+                              defines=dict({"OFV_A": a, "OFV_B": b, "OFV_MASK": m, "OFV_LEAD": lead, "OPENFEC_VERIF_SPARSE_BLOCK": 64}, **({"OFV_BIG": 1} if max(a, b) in (24, 25) or min(a, b) in (24, 25) else {})), unwind=110, object_bits=12, timeout=400, mem_gb=4,
                               status="bounded", relevant=r"^independent\.", native=False,
                               replace_calls=[("of_galois_field_2_8_addmul1", "stub_addmul1_2_8"), ("of_galois_field_2_4_addmul1", "stub_addmul1_2_4"), ("of_galois_field_2_4_addmul1_compact", "stub_addmul1_2_4_compact")],
                               checks=["--bounds-check", "--pointer-check", "--div-by-zero-check", "--no-malloc-may-fail"],   # memory safety is C07's subject; the GF kernels form a one-before pointer (section 10.3)
